@@ -12,7 +12,13 @@ import (
 )
 
 // SV is a spec-level value: either a Go-typed flattened value or a pure term.
+type Lambda struct {
+	Params []*Term // fresh constants standing for the arguments
+	Result *Term
+}
+
 type SV struct {
+	Lam  *Lambda
 	V    *Value // Go-typed
 	T    *Term  // pure term (Int/Bool/Str/array...)
 	Nil  bool
@@ -598,8 +604,21 @@ func (e *Env) call(n *SNode) SV {
 			e.fail("unknown type %q in typeid", n.Args[0].Name)
 		}
 		return svTerm(id)
+	case "strlt":
+		d := B.DeclFunc("strlt", []*Sort{StrSort, StrSort}, BoolSort)
+		return svTerm(B.App(d, argT(0), argT(1)))
 	case "strlit":
 		return svTerm(x.strLit(n.Args[0].Name))
+	}
+	if lv, ok := e.vars[n.Name]; ok && lv.Lam != nil {
+		if len(n.Args) != len(lv.Lam.Params) {
+			e.fail("%s expects %d arguments", n.Name, len(lv.Lam.Params))
+		}
+		m := map[*Term]*Term{}
+		for i := range n.Args {
+			m[lv.Lam.Params[i]] = argT(i)
+		}
+		return svTerm(B.Subst(lv.Lam.Result, m))
 	}
 	if sp, ok := x.W.Specs.StrPreds[n.Name]; ok {
 		return svTerm(x.strPredApp(sp, argT(0)))
